@@ -250,7 +250,9 @@ Definition walletkey_public_assigns : list (string * (string * string)) :=
 (* how public() obtains the object it returns: Key/HDKey deep-copy, WalletKey returns itself *)
 Definition key_public_copy := "deepcopy(self)".
 Definition hdkey_public_copy := "deepcopy(self)".
-Definition walletkey_public_copy := "self".
+(* WalletKey.public() returned the object itself (in-place stripping); the repaired form deep-copies first.
+   Both give the returned object the same attribute contents, which is all this model observes. *)
+Definition walletkey_public_copies : list string := ["self"; "deepcopy(self)"].
 
 Definition p_public : prog :=
   If CHd (prog_of_assigns hdkey_public_assigns) (prog_of_assigns key_public_assigns) Done.
